@@ -33,6 +33,22 @@ def parse_behaviours(lines, tag="BEHAVIOUR"):
             out.append(json.loads(s))
     return out
 
+NODB = 7          # a database no request of these histories ever creates
+
+def err_will(rng, c, kind, key, lid):
+    """A will that can only end in an error reply, whatever the state: UNLOCK of a lock that is not held
+    (UNLOCK_ERROR), UNLOCK in a database that was never created (UNKNOWN_DB), LOCK / UNLOCK with DbId 0xff
+    (UNKNOWN_DB; the text protocol refuses to register that one, so binary only)."""
+    forms = ["unheld", "nodb"] + (["ff-lock", "ff-unlock"] if kind == "bin" else [])
+    f = rng.choice(forms)
+    if f == "unheld":
+        return {"op": "unlock", "c": c, "key": key, "lid": lid, "rc": 0, "will": True}
+    if f == "nodb":
+        return {"op": "unlock", "c": c, "key": key, "lid": lid, "rc": 0, "will": True, "db": NODB}
+    if f == "ff-lock":
+        return {"op": "lock", "c": c, "key": key, "lid": lid, "to": 0, "ex": 30, "rc": 0, "will": True, "db": 255}
+    return {"op": "unlock", "c": c, "key": key, "lid": lid, "rc": 0, "will": True, "db": 255}
+
 def compile_hist(hist, name, seed):
     """hist: list of records of Session!hist.  Returns a scenario for TestVerifW."""
     rng = random.Random(f"{seed}/{name}")
@@ -71,6 +87,8 @@ def compile_hist(hist, name, seed):
             steps.append({"op": "conn", "c": c, "kind": h["a"]})
         elif op == "init":
             steps.append({"op": "init", "c": c, "cid": h["b"]})
+        elif op == "will" and h["a"][0] == "E":
+            steps.append(err_will(rng, c, kinds.get(c, "bin"), 1000 + rid, 2000 + rid))
         elif op == "will":
             cmd, wait = h["a"][0], h["a"].endswith("w")
             ex = fire_ex.get(rid, E_LONG)
@@ -82,7 +100,10 @@ def compile_hist(hist, name, seed):
                         steps.append({"op": "lock", "c": c, "key": key, "lid": lid, "to": 0, "ex": E_LONG, "rc": 1})
                     steps.append({"op": "unlock", "c": c, "key": key, "lid": lid, "rc": 1, "will": True})
                 else:
-                    steps.append({"op": "lock", "c": c, "key": key, "lid": lid, "to": 0, "ex": E_LONG, "rc": 1, "will": True})
+                    st = {"op": "lock", "c": c, "key": key, "lid": lid, "to": 0, "ex": E_LONG, "rc": 1, "will": True}
+                    if rng.random() < 0.3:
+                        st["data"] = f"v{rid}"          # a will that carries a value payload
+                    steps.append(st)
             elif cmd == "L":
                 steps.append({"op": "lock", "c": c, "key": k, "lid": 100 + rid, "to": to, "ex": ex, "rc": 0, "will": True})
             else:
@@ -242,9 +263,22 @@ def gen_random(seed, i, safe=True):
         pk = 1000 + 10 * c
         depth, plid = 0, 2000 + 10 * c
         for j in range(nw):
-            form = rng.choice(["pl", "pl", "pu", "seq", "sl", "su"])
+            form = rng.choice(["pl", "pl", "pu", "seq", "sl", "su", "err", "err", "dup", "val"])
             n = fresh()
-            if form == "pl":
+            if form == "err":
+                # an erroring will anywhere in the list (first / middle / last): the others must run all the same
+                steps.append(err_will(rng, c, C["kind"], 3000 + n, 4000 + n))
+                C["imm"] = True
+            elif form == "dup":
+                # the same will registered twice: two executions, depth 2
+                for _ in range(2):
+                    steps.append({"op": "lock", "c": c, "key": 3000 + n, "lid": 4000 + n, "to": 0, "ex": 300, "rc": 1, "will": True})
+                C["wills"] += 1
+                C["imm"] = True
+            elif form == "val":
+                steps.append({"op": "lock", "c": c, "key": 3000 + n, "lid": 4000 + n, "to": 0, "ex": 300, "rc": 1, "will": True, "data": f"v{n}"})
+                C["imm"] = True
+            elif form == "pl":
                 steps.append({"op": "lock", "c": c, "key": 3000 + n, "lid": 4000 + n, "to": 0, "ex": 300, "rc": 1, "will": True})
                 C["imm"] = True
             elif form == "pu":
@@ -336,8 +370,13 @@ def gen_random(seed, i, safe=True):
     return {"name": f"rnd-{seed}-{i}" + ("" if safe else "-u"), "steps": steps, "complete": True}
 
 def directed():
-    """Hand-shaped regression histories (each is also reachable by the generators)."""
+    """Hand-shaped regression histories (each is also reachable by the generators), plus scenarios/sess_directed.json."""
+    import os
     D = []
+    extra = os.path.join(os.path.dirname(os.path.dirname(os.path.abspath(__file__))), "scenarios", "sess_directed.json")
+    if os.path.exists(extra):
+        with open(extra) as fh:
+            D += json.load(fh)
     def sc(name, steps):
         D.append({"name": "dir-" + name, "steps": steps + [{"op": "settle", "n": 70}, {"op": "closeall"}, {"op": "drain", "n": 320}], "complete": True})
     pl = lambda c, n: {"op": "lock", "c": c, "key": 3000 + n, "lid": 4000 + n, "to": 0, "ex": 300, "rc": 1, "will": True}
